@@ -49,14 +49,18 @@ mcview == <<pc, loc, guards, tl, nstate, budget, flush, alive, bad, memvars>>
 \* rl[e]: set of plain nodes; orl[e]: set of adopted orphans (each a set of nodes)
 TL0 == [block |-> FALSE, regions |-> 0, rl |-> [e \in 0 .. NE - 1 |-> {}], orl |-> [e \in 0 .. NE - 1 |-> {}]]
 L0 == [op |-> "none", g |-> 0, c |-> 0, fresh |-> 0, epoch |-> 0, u |-> 0, after |-> "idle", old |-> 0]
+\* operations per thread (a definition the configurations may override: asymmetric programs keep weak-memory runs small)
+OpsOf(t) == MaxOps
+FlushOf(t) == MaxFlush
+MayStart(t, op) == TRUE
 Init == /\ MemInit
         /\ pc = [t \in Threads |-> "idle"]
         /\ loc = [t \in Threads |-> L0]
         /\ guards = [t \in Threads |-> [g \in 1 .. NG |-> 0]]
         /\ tl = [t \in Threads |-> TL0]
         /\ nstate = [n \in Nodes |-> IF n <= NCells THEN "live" ELSE "free"]
-        /\ budget = [t \in Threads |-> MaxOps]
-        /\ flush = [t \in Threads |-> MaxFlush]
+        /\ budget = [t \in Threads |-> OpsOf(t)]
+        /\ flush = [t \in Threads |-> FlushOf(t)]
         /\ alive = [t \in Threads |-> TRUE]
         /\ bad = "ok"
         /\ last = [t |-> -1, k |-> "init", lab |-> "init", v |-> 0, ok |-> 1, n |-> 0]
@@ -64,12 +68,13 @@ Init == /\ MemInit
 Goto(t, l) == pc' = [pc EXCEPT ![t] = l]
 Acc(t, k, lab, v, ok) == last' = [t |-> t, k |-> k, lab |-> lab, v |-> v, ok |-> ok, n |-> last.n + 1]
 UG == UNCHANGED <<guards, tl, nstate, budget, flush, alive, bad>>
-Delete(S) == /\ nstate' = [n \in Nodes |-> IF n \in S THEN "des" ELSE nstate[n]]
-             /\ bad' = IF bad = "ok" /\ \E n \in S : nstate[n] # "ret" THEN "deleted a node that is not retired" ELSE bad
+Delete(t, S) == /\ nstate' = [n \in Nodes |-> IF n \in S THEN "des" ELSE nstate[n]]
+                /\ bad' = IF bad = "ok" /\ \E n \in S : nstate[n] # "ret" THEN "deleted a node that is not retired"
+                          ELSE IF bad = "ok" /\ \E n \in S : PlainWrRaces(t, PAY(n)) THEN "delete races with an access to the object" ELSE bad
 
 \* ---------------------------------------------------------------- client operations
 Begin(t, op, g, c, first, cost) ==
-  /\ pc[t] = "idle" /\ alive[t]
+  /\ pc[t] = "idle" /\ alive[t] /\ MayStart(t, op)
   /\ IF cost THEN budget[t] > 0 /\ budget' = [budget EXCEPT ![t] = @ - 1] /\ UNCHANGED flush
      ELSE /\ \A u \in Threads : pc[u] = "idle" /\ budget[u] = 0
           /\ \A u \in Threads : alive[u] => flush[t] >= flush[u]        \* idle cycles take turns (every thread keeps passing quiescent states)
@@ -191,7 +196,7 @@ t_done(t) == /\ pc[t] = "t_done"
 q_stle(t) == /\ pc[t] = "q_stle"
              /\ Store(t, LE(t), loc[t].epoch, Ord["q_stle"]) /\ Acc(t, "st", "q_stle", loc[t].epoch, 1)
              /\ LET e == loc[t].epoch S == tl[t].rl[e] \cup UNION tl[t].orl[e] IN
-                /\ Delete(S)
+                /\ Delete(t, S)
                 /\ tl' = [tl EXCEPT ![t].rl[e] = {}, ![t].orl[e] = {}]
              /\ Goto(t, loc[t].after)
              /\ UNCHANGED <<loc, guards, budget, flush, alive>>
@@ -203,11 +208,12 @@ op_done(t) ==
   /\ CASE loc[t].op = "replace" /\ guards[t][loc[t].g] # 0 /\ FreshIds # {} ->
             /\ \E n \in FreshIds : /\ loc' = [loc EXCEPT ![t].fresh = n, ![t].op = "replace2"]
                                    /\ nstate' = [nstate EXCEPT ![n] = "live"]
+                                   /\ FreshWr(t, PAY(n), 0)           \* the constructor writes the payload
             /\ Goto(t, "x_cas") /\ UNCHANGED guards
        [] loc[t].op = "flushcycle" /\ guards[t][loc[t].g] # 0 ->
-            /\ loc' = [loc EXCEPT ![t].op = "flushreset"] /\ Goto(t, "r_begin") /\ UNCHANGED <<nstate, guards>>
-       [] OTHER -> Goto(t, "idle") /\ UNCHANGED <<loc, nstate, guards>>
-  /\ UNCHANGED <<tl, budget, flush, alive, bad, last, memvars>>
+            /\ loc' = [loc EXCEPT ![t].op = "flushreset"] /\ Goto(t, "r_begin") /\ UNCHANGED <<nstate, guards, memvars>>
+       [] OTHER -> Goto(t, "idle") /\ UNCHANGED <<loc, nstate, guards, memvars>>
+  /\ UNCHANGED <<tl, budget, flush, alive, bad, last>>
 x_cas(t) == /\ pc[t] = "x_cas"
             /\ LET x == CELL(loc[t].c) old == guards[t][loc[t].g] IN
                IF Latest(x) = old
@@ -231,7 +237,7 @@ r_ldle(t) == /\ pc[t] = "r_ldle"
 \* ---------------------------------------------------------------- thread exit: ~thread_data
 HasRetired(t) == \E e \in 0 .. NE - 1 : tl[t].rl[e] # {} \/ tl[t].orl[e] # {}
 StartExit(t) == /\ pc[t] = "idle" /\ alive[t] /\ budget[t] = 0 /\ loc[t].op # "exit" /\ \A g \in 1 .. NG : guards[t][g] = 0
-                /\ \A u \in Threads : flush[u] = MaxFlush
+                /\ \A u \in Threads : flush[u] = FlushOf(u)
                 /\ \E u \in Threads \ {t} : alive[u] /\ loc[u].op # "exit"
                 /\ loc' = [loc EXCEPT ![t] = [L0 EXCEPT !.op = "exit"]]
                 /\ Goto(t, IF ~tl[t].block THEN "x_dead" ELSE IF HasRetired(t) THEN "x_ldge" ELSE "x_release") /\ Acc(t, "call", "exit", 0, 1)
